@@ -335,18 +335,22 @@ impl Ctl {
             Cmd::AddBp(r) => {
                 rt::mark(format!("bp add {r}"));
                 self.ctx.add_breakpoint(r.clone());
+                rt::mark("bp done");
             }
             Cmd::DelBp(r) => {
                 rt::mark(format!("bp del {r}"));
                 self.ctx.delete_breakpoint(r);
+                rt::mark("bp done");
             }
             Cmd::AddAll => {
                 rt::mark("bp addall");
                 self.ctx.add_all_rules_breakpoints().expect("grammar is loaded");
+                rt::mark("bp done");
             }
             Cmd::DelAll => {
                 rt::mark("bp delall");
                 self.ctx.delete_all_breakpoints();
+                rt::mark("bp done");
             }
             Cmd::ListBp => {
                 rt::mark("bp list");
@@ -507,7 +511,6 @@ pub struct Probes {
     pub restart_parked: u64,
     pub restart_running: u64,
     pub restart_finished: u64,
-    pub restart_in_send: u64,
     pub stale_events_after_restart: u64,
     pub bp_events: u64,
     pub finals: u64,
@@ -523,6 +526,7 @@ pub struct Probes {
     pub spurious_wakes: u64,
     pub listener_calls: u64,
     pub cont_result_mismatch: u64,
+    pub stop_flag_seen_without_restart: u64,
 }
 
 impl Probes {
@@ -532,7 +536,6 @@ impl Probes {
         self.restart_parked += o.restart_parked;
         self.restart_running += o.restart_running;
         self.restart_finished += o.restart_finished;
-        self.restart_in_send += o.restart_in_send;
         self.stale_events_after_restart += o.stale_events_after_restart;
         self.bp_events += o.bp_events;
         self.finals += o.finals;
@@ -548,13 +551,13 @@ impl Probes {
         self.spurious_wakes += o.spurious_wakes;
         self.listener_calls += o.listener_calls;
         self.cont_result_mismatch += o.cont_result_mismatch;
+        self.stop_flag_seen_without_restart += o.stop_flag_seen_without_restart;
     }
     pub fn to_json(&self) -> Value {
         json!({
             "runs": self.runs, "restarts": self.restarts,
             "restart_while_parked": self.restart_parked,
             "restart_while_running": self.restart_running,
-            "restart_while_in_send": self.restart_in_send,
             "restart_after_finish": self.restart_finished,
             "stale_events_after_restart": self.stale_events_after_restart,
             "breakpoint_events": self.bp_events, "final_events": self.finals,
@@ -569,6 +572,7 @@ impl Probes {
             "precondition_void": self.precondition_void,
             "spurious_wakes_fired": self.spurious_wakes,
             "cont_return_value_differs_from_model(info)": self.cont_result_mismatch,
+            "stop_flag_seen_set_without_restart(info)": self.stop_flag_seen_without_restart,
         })
     }
 }
@@ -577,7 +581,6 @@ impl Probes {
 enum PState {
     Running,
     Parked,
-    InSend,
     Finished,
 }
 
@@ -585,9 +588,13 @@ struct RunModel {
     chan: u32,
     task: Option<usize>,
     reference: RunRef,
-    /// listener calls (breakpoint-mutex acquisitions) seen so far
-    j: usize,
-    expect_bp: Option<String>,
+    /// possible indices of the next rule entry the parser thread will examine (a set, because
+    /// identical (rule, position) entries and breakpoint mutations racing the parse can make the
+    /// correspondence between delivered events and entries ambiguous)
+    positions: BTreeSet<usize>,
+    /// history sequence number of the last delivered event of this run (start of the window in
+    /// which the entries up to the next delivered event were examined)
+    win_start: u64,
     bp_sends: u64,
     unparks: u64,
     final_sent: bool,
@@ -600,6 +607,20 @@ struct RunModel {
     loads_true: u64,
     last_park_had_token: bool,
     cap: usize,
+}
+
+struct BState {
+    set: BTreeSet<String>,
+    earliest: u64,
+    latest: u64,
+}
+
+/// May `rule` have been inside (`inside = true`) / outside (`false`) the breakpoint set at some
+/// instant of the window [w0, w1]?
+fn possibly(states: &[BState], rule: &str, inside: bool, w0: u64, w1: u64) -> bool {
+    states
+        .iter()
+        .any(|b| b.earliest <= w1 && b.latest >= w0 && b.set.contains(rule) == inside)
 }
 
 fn viol(class: &str, detail: String, seq: Option<u64>) -> Violation {
@@ -629,8 +650,14 @@ pub fn check_history(
         Ok((_, rules)) => rules.iter().map(|r| r.name.clone()).collect(),
         Err(_) => vec![],
     };
-    let mut bset: BTreeSet<String> = BTreeSet::new();
-    let mut pending_mut: Vec<String> = vec![];
+    // Breakpoint-set history as the CONTROLLER sees it: state i may have been in force at any
+    // time from the beginning of the call that created it to the end of the call that replaced
+    // it. The model does not look at how (or how often) the implementation locks the set.
+    let mut bstates: Vec<BState> = vec![BState {
+        set: BTreeSet::new(),
+        earliest: 0,
+        latest: u64::MAX,
+    }];
     let mut runs: Vec<RunModel> = vec![];
     let mut by_task: BTreeMap<usize, usize> = BTreeMap::new();
     let mut by_chan: BTreeMap<u32, usize> = BTreeMap::new();
@@ -662,8 +689,42 @@ pub fn check_history(
             match &ev.kind {
                 EvKind::Mark(m) => {
                     if let Some(rest) = m.strip_prefix("bp ") {
-                        if !rest.starts_with("listed") {
-                            pending_mut.push(rest.to_string());
+                        if rest == "done" {
+                            // the previous state can no longer be observed after this point
+                            let n = bstates.len();
+                            if n >= 2 && bstates[n - 2].latest == u64::MAX {
+                                bstates[n - 2].latest = ev.seq;
+                            }
+                        } else if !rest.starts_with("list") {
+                            let mut parts = rest.splitn(2, ' ');
+                            let op = parts.next().unwrap_or("");
+                            let arg = parts.next().unwrap_or("").to_string();
+                            let mut set = bstates.last().unwrap().set.clone();
+                            match op {
+                                "add" => {
+                                    set.insert(arg);
+                                }
+                                "del" => {
+                                    set.remove(&arg);
+                                }
+                                "addall" => {
+                                    for r in &all_rules {
+                                        set.insert(r.clone());
+                                    }
+                                }
+                                "delall" => set.clear(),
+                                _ => {}
+                            }
+                            bstates.push(BState {
+                                set,
+                                earliest: ev.seq,
+                                latest: u64::MAX,
+                            });
+                            if let Some(r) = runs.last() {
+                                if r.task.is_some() && !r.exited {
+                                    probes.bp_mutation_during_run += 1;
+                                }
+                            }
                         }
                     } else if m.starts_with("run_invoke") {
                         let chan: u32 = m
@@ -692,7 +753,6 @@ pub fn check_history(
                             match prev.pstate {
                                 PState::Parked => probes.restart_parked += 1,
                                 PState::Running => probes.restart_running += 1,
-                                PState::InSend => probes.restart_in_send += 1,
                                 PState::Finished => probes.restart_finished += 1,
                             }
                         }
@@ -703,8 +763,8 @@ pub fn check_history(
                             chan,
                             task: None,
                             reference: refs[idx].clone(),
-                            j: 0,
-                            expect_bp: None,
+                            positions: BTreeSet::from([0usize]),
+                            win_start: ev.seq,
                             bp_sends: 0,
                             unparks: 0,
                             final_sent: false,
@@ -770,34 +830,6 @@ pub fn check_history(
                         epilogue_started = true;
                     } else if m == "epilogue_done" {
                         epilogue_done = true;
-                    }
-                }
-                EvKind::Lock { .. } => {
-                    if !pending_mut.is_empty() {
-                        let m = pending_mut.remove(0);
-                        let mut parts = m.splitn(2, ' ');
-                        let op = parts.next().unwrap_or("");
-                        let arg = parts.next().unwrap_or("").to_string();
-                        match op {
-                            "add" => {
-                                bset.insert(arg);
-                            }
-                            "del" => {
-                                bset.remove(&arg);
-                            }
-                            "addall" => {
-                                for r in &all_rules {
-                                    bset.insert(r.clone());
-                                }
-                            }
-                            "delall" => bset.clear(),
-                            _ => {}
-                        }
-                        if let Some(r) = runs.last() {
-                            if r.task.is_some() && !r.exited {
-                                probes.bp_mutation_during_run += 1;
-                            }
-                        }
                     }
                 }
                 EvKind::Load { val, obj } => {
@@ -879,43 +911,14 @@ pub fn check_history(
                     r.loads_true += 1;
                     probes.aborted_listener_calls += 1;
                     if !r.superseded && !r.final_sent {
-                        flag!(viol(
-                            "spurious-abort",
-                            "parser thread saw the stop flag set although no restart was requested".into(),
-                            seq
-                        ));
+                        // informational only: the consequence (missing / wrong events) is what
+                        // the sequence check judges
+                        probes.stop_flag_seen_without_restart += 1;
                     }
                 }
             }
             EvKind::Lock { .. } => {
                 probes.listener_calls += 1;
-                if r.superseded {
-                    continue;
-                }
-                if let Some(exp) = r.expect_bp.take() {
-                    flag!(viol(
-                        "sequence-mismatch",
-                        format!("breakpoint hit {exp} was not delivered before the parse moved on"),
-                        seq
-                    ));
-                }
-                let j = r.j;
-                r.j += 1;
-                if j >= r.reference.entries.len() {
-                    flag!(viol(
-                        "sequence-mismatch",
-                        format!(
-                            "listener call #{j} but the plain parse has only {} rule entries",
-                            r.reference.entries.len()
-                        ),
-                        seq
-                    ));
-                    continue;
-                }
-                let (rule, pos) = &r.reference.entries[j];
-                if bset.contains(rule) {
-                    r.expect_bp = Some(format!("{:?}", DebuggerEvent::Breakpoint(rule.clone(), *pos)));
-                }
             }
             EvKind::Send { chan, payload, waited } => {
                 r.sent_total += 1;
@@ -930,21 +933,45 @@ pub fn check_history(
                 if *chan != r.chan {
                     flag!(viol("sequence-mismatch", "event sent on a foreign channel".into(), seq));
                 }
+                let entries = &r.reference.entries;
+                let (w0, w1) = (r.win_start, ev.seq);
                 if payload.starts_with("Breakpoint(") {
                     probes.bp_events += 1;
-                    match r.expect_bp.take() {
-                        Some(exp) if exp == *payload => {}
-                        Some(exp) => flag!(viol(
-                            "sequence-mismatch",
-                            format!("delivered {payload}, model expects {exp}"),
-                            seq
-                        )),
-                        None => flag!(viol(
-                            "sequence-mismatch",
-                            format!("delivered {payload} but no breakpoint is hit here"),
-                            seq
-                        )),
+                    // which entries can this event be? from every possible position p: an entry
+                    // j >= p that renders as this payload, whose rule may have been in the set
+                    // during the window, with every entry in p..j possibly not in the set
+                    let mut next: BTreeSet<usize> = BTreeSet::new();
+                    let mut why = String::new();
+                    for p in r.positions.iter().copied() {
+                        for j in p..entries.len() {
+                            let (rule, pos) = &entries[j];
+                            if format!("{:?}", DebuggerEvent::Breakpoint(rule.clone(), *pos)) == *payload
+                                && possibly(&bstates, rule, true, w0, w1)
+                            {
+                                next.insert(j + 1);
+                            }
+                            if !possibly(&bstates, rule, false, w0, w1) {
+                                // entry j is certainly a hit: nothing beyond it can be delivered
+                                // before it
+                                if why.is_empty() {
+                                    why = format!(
+                                        "the earlier breakpoint hit {:?} has not been delivered",
+                                        DebuggerEvent::Breakpoint(rule.clone(), *pos)
+                                    );
+                                }
+                                break;
+                            }
+                        }
                     }
+                    if next.is_empty() {
+                        if why.is_empty() {
+                            why = "the parse has no such breakpoint hit ahead".into();
+                        }
+                        flag!(viol("sequence-mismatch", format!("delivered {payload}: {why}"), seq));
+                    } else {
+                        r.positions = next;
+                    }
+                    r.win_start = ev.seq;
                     r.bp_sends += 1;
                     if strict_pacing && r.bp_sends > 1 + r.unparks {
                         flag!(viol(
@@ -962,21 +989,29 @@ pub fn check_history(
                         flag!(viol("sequence-mismatch", "second final event".into(), seq));
                     }
                     r.final_sent = true;
-                    if let Some(exp) = r.expect_bp.take() {
-                        flag!(viol(
-                            "sequence-mismatch",
-                            format!("final event delivered but breakpoint hit {exp} was skipped"),
-                            seq
-                        ));
+                    // every remaining entry must possibly be outside the set
+                    let mut ok = false;
+                    let mut missed = String::new();
+                    for p in r.positions.iter().copied() {
+                        let mut all_out = true;
+                        for (rule, pos) in entries.iter().skip(p) {
+                            if !possibly(&bstates, rule, false, w0, w1) {
+                                all_out = false;
+                                if missed.is_empty() {
+                                    missed = format!("{:?}", DebuggerEvent::Breakpoint(rule.clone(), *pos));
+                                }
+                                break;
+                            }
+                        }
+                        if all_out {
+                            ok = true;
+                            break;
+                        }
                     }
-                    if r.j != r.reference.entries.len() {
+                    if !ok {
                         flag!(viol(
                             "sequence-mismatch",
-                            format!(
-                                "final event after {} of {} rule entries",
-                                r.j,
-                                r.reference.entries.len()
-                            ),
+                            format!("final event {payload} delivered but breakpoint hit {missed} was skipped"),
                             seq
                         ));
                     }
@@ -1020,11 +1055,6 @@ pub fn check_history(
                 }
             }
             _ => {}
-        }
-        // a send that is blocked on a full channel is visible only by absence; approximate the
-        // in-send state from the model: an expected event that has not been sent yet
-        if r.expect_bp.is_some() && r.pstate == PState::Running {
-            r.pstate = PState::InSend;
         }
     }
 
